@@ -34,12 +34,14 @@ pub fn drop_case(id: usize, unix: bool, tmpdir: &str) -> String {
         let _ = std::fs::remove_file(&path);
         Server::http_unix(std::path::Path::new(&path)).unwrap()
     } else {
-        Server::http("127.0.0.1:0").unwrap()
+        // also an address of the loopback range other than 127.0.0.1
+        Server::http(if id % 4 == 0 { "127.0.0.2:0" } else { "127.0.0.1:0" }).unwrap()
     };
     let addr = server.server_addr();
     let mut answered = false;
     let refused_ms: i64;
     let mut path_removed = "na".to_string();
+    let mut first_refused = true;
     if unix {
         let mut c = std::os::unix::net::UnixStream::connect(&path).unwrap();
         c.write_all(b"GET /held HTTP/1.1\r\nHost: x\r\n\r\n").unwrap();
@@ -76,6 +78,10 @@ pub fn drop_case(id: usize, unix: bool, tmpdir: &str) -> String {
         c.write_all(b"GET /held HTTP/1.1\r\nHost: x\r\n\r\n").unwrap();
         let rq = server.recv_timeout(Duration::from_secs(2)).unwrap().unwrap();
         drop(server);
+        // "within a short bounded time new connection attempts are refused": after a quarter of a
+        // second the very first attempt must be (an attempt must not be what stops the listener)
+        std::thread::sleep(Duration::from_millis(250));
+        first_refused = TcpStream::connect_timeout(&ip, Duration::from_millis(200)).is_err();
         let t0 = Instant::now();
         let mut r = -1i64;
         while t0.elapsed() < Duration::from_millis(1500) {
@@ -93,7 +99,15 @@ pub fn drop_case(id: usize, unix: bool, tmpdir: &str) -> String {
         let out = read_response(&mut c, 1500);
         answered = out.starts_with(b"HTTP/1.1 200") && out.ends_with(b"done");
     }
-    format!("srv id={} kind={} refused_ms={} answered={} path_removed={}", id, if unix { "drop-unix" } else { "drop-tcp" }, refused_ms, if answered { 1 } else { 0 }, path_removed)
+    format!(
+        "srv id={} kind={} refused_ms={} answered={} path_removed={} first_refused={}",
+        id,
+        if unix { "drop-unix" } else { "drop-tcp" },
+        refused_ms,
+        if answered { 1 } else { 0 },
+        path_removed,
+        if first_refused { 1 } else { 0 }
+    )
 }
 
 /// a UNIX-socket server whose accept loop has already ended (a listener that reports an error:
